@@ -33,12 +33,14 @@ class Logger:
         self.msgs.append((code, msg))
 
     def bad(self):
+        """'error' dominates 'undefined': an unsafe / syntactically wrong program is never merely skipped"""
+        res = None
         for code, msg in self.msgs:
-            if "operation undefined" in msg or "tuple ignored" in msg:
-                return "undefined"
-            if code == clingo.MessageCode.RuntimeError or "unsafe" in msg or "error" in msg.split(":")[0:4].__str__():
+            if code == clingo.MessageCode.RuntimeError or "unsafe" in msg or ": error:" in msg:
                 return "error"
-        return None
+            if "operation undefined" in msg or "tuple ignored" in msg:
+                res = "undefined"
+        return res
 
 
 def solve_text(text: str, project: Optional[set] = None, with_cost: bool = True, consts: Iterable[str] = ()):
